@@ -45,7 +45,7 @@ Definition enc_qtank (L : nat) (t : qtank) : list Z :=
   ++ ev (l_decayed l) ++ encn (length (l_b l)).
 Definition qtank_step (t : qtank) (o : qop) : qtank * list Z :=
   let '(t', r) := qtank_do t o in
-  (t', match o with QEnd _ | QSetT _ => [] | _ => ev r end).
+  (t', match o with QEnd _ | QSetT _ | QReinit => [] | _ => ev r end).
 Fixpoint run_qtank (L : nat) (t : qtank) (ops : list qop) : list Z :=
   match ops with
   | [] => []
@@ -241,7 +241,8 @@ Inductive qnop :=
 | YPushCheck (ov : option vqip) | YPullCheck (ov : option Q) | YPullSet (q : Q)
 | YDischarge                       (* Sewer.make_discharge / QueueGroundwater.distribute *)
 | YEnd (T : Q)
-| YOverride (cap : Q) (pt : nat) (ta : list (nat * Q)).
+| YOverride (cap : Q) (pt : nat) (ta : list (nat * Q))
+| YReinit (init : vqip).           (* Sewer.reinit (init = nothing) / Storage.reinit (the initial storage) *)
 Definition nqnode := qnode (nb * nb).
 Definition enc_qnode (L : nat) (n : nqnode) : list Z :=
   enc_qtank L (qn_t _ n) ++ enc_star (qn_outs _ n) ++ enc_star (qn_ins _ n).
@@ -260,6 +261,7 @@ Definition qnode_step (maxiter : nat) (kd : qkind) (n : nqnode) (o : qnop) : opt
       let n1 := qn_end _ n T in
       Some (mkQN _ (qn_t _ n1) (end_star (qn_outs _ n1)) (end_star (qn_ins _ n1)) (qn_pt _ n1) (qn_ta _ n1), [])
   | YOverride cap pt ta => Some (sw_override _ n cap pt ta, [])
+  | YReinit init => Some (qn_reinit _ n init, [])
   end.
 Fixpoint run_qnode (L maxiter : nat) (kd : qkind) (n : nqnode) (ops : list qnop) : list Z :=
   match ops with
